@@ -11,7 +11,7 @@ CONSTANTS
   GenBlockTypes = {"b", "c"}
   GenNoteKinds = {"I", "M"}
   GenSubTypes = {"B", "C"}
-  Rich = FALSE
-  Terse = TRUE
+  Rich = 1
+  Terse = 1
   Phased = TRUE
 CHECK_DEADLOCK FALSE
